@@ -10,6 +10,8 @@ CONSTANTS
   MaxT = 2
   MaxS = 1
   MaxClr = 1
+  MaxPlain = 0
+  Vias = {"set"}
   Depth = 0
   Gen = FALSE
 INIT Init
